@@ -104,7 +104,7 @@ def run(ctx):
                 keep.append(c)
         classes = keep
     scens = [scenario(c, random.Random(ctx.seed * 7919 + i)) for i, c in enumerate(classes)]
-    out = asyncio.run(main_async(ctx, tree, scens, 6))
+    out = cachesim.run_scenarios_stores(ctx, tree, scens, 6, disk_sample=40)      # memory cache for all, a sample on rock and ufs
     hist = [{'ev': cachesim.strip_for_tlc(ev)} for _, ev in out]
     rej = escen.validate(ctx, os.path.join(SPEC, 'Trace_Freshness.tla'), os.path.join(SPEC, 'Trace_Freshness.cfg'), hist, 'fresh')
     ctx.log('realised %d scenarios; P-rejected %d' % (len(out), len(rej)))
